@@ -72,6 +72,18 @@ def _expr(n, env, src):
                 if t == "vec":
                     return ("vec", "(VScale %s %s)" % (q, ee))
         raise TranslateError("line %d: unsupported multiplication %s" % (n.lineno, ast.get_source_segment(src, n)))
+    if isinstance(n, ast.BinOp) and isinstance(n.op, ast.Div) and isinstance(n.right, ast.Constant) and isinstance(n.right.value, (int, float)) \
+            and not isinstance(n.right.value, bool) and n.right.value != 0:
+        fr = 1 / Fraction(ast.get_source_segment(src, n.right))
+        t, ee = _expr(n.left, env, src)
+        q = "(%d#%d)" % (fr.numerator, fr.denominator)
+        if t == "scal":
+            return ("scal", "(EScale %s %s)" % (q, ee))
+        if t == "vec":
+            return ("vec", "(VScale %s %s)" % (q, ee))
+    if isinstance(n, ast.Call) and isinstance(n.func, ast.Attribute) and n.func.attr == "dot" and len(n.args) == 1 and not n.keywords:
+        # a.dot(b) == a @ b
+        return _expr(ast.BinOp(left=n.func.value, op=ast.MatMult(), right=n.args[0], lineno=n.lineno), env, src)
     if isinstance(n, ast.Call):
         seg = ast.get_source_segment(src, n)
         if seg in env:
@@ -97,27 +109,39 @@ def read_calc_reaction(repo):
     pairs = {"K": "self._Get_u_n(problemType)", "C": "self._Get_v_n(problemType)", "M": "self._Get_a_n(problemType)"}
     terms = []
     returns = []
+    # names of the locals are free: the accumulated vector is the one initialised by np.zeros, the owned dofs the one
+    # assigned self.Get_dofs(problemType), state vectors may be bound to locals first
+    rv, owned, alias = None, None, {}
+    for st in ast.walk(f):
+        if isinstance(st, ast.Assign) and len(st.targets) == 1 and isinstance(st.targets[0], ast.Name):
+            v = ast.get_source_segment(src, st.value)
+            if v.startswith("np.zeros("):
+                rv = st.targets[0].id
+            elif v == "self.Get_dofs(problemType)":
+                owned = st.targets[0].id
+            elif v in pairs.values():
+                alias[st.targets[0].id] = v
+    if rv is None or owned is None:
+        raise TranslateError("Calc_Reaction: the zero-initialised result vector or the owned dofs were not found")
     for st in ast.walk(f):
         if isinstance(st, (ast.Assign, ast.AugAssign)):
             tgt = st.targets[0] if isinstance(st, ast.Assign) else st.target
             if isinstance(st, ast.Assign) and len(st.targets) != 1:
                 raise TranslateError("line %d: multiple assignment targets" % st.lineno)
             seg = ast.get_source_segment(src, tgt)
-            if isinstance(tgt, ast.Name) and tgt.id == "reaction":
+            if isinstance(tgt, ast.Name) and tgt.id == rv:
                 if not ast.get_source_segment(src, st.value).startswith("np.zeros("):
                     raise TranslateError("line %d: reaction is not initialised with zeros" % st.lineno)
                 continue
             if isinstance(tgt, ast.Name) and tgt.id == "dofs":
                 v = ast.get_source_segment(src, st.value)
-                if v not in ("ownedDofs", "dofs[np.isin(dofs, ownedDofs)]"):
+                if v not in (owned, "dofs[np.isin(dofs, %s)]" % owned):
                     raise TranslateError("line %d: dofs = %s is neither the owned dofs nor the given dofs filtered by them" % (st.lineno, v))
                 continue
-            if isinstance(tgt, ast.Name) and tgt.id == "ownedDofs":
-                if ast.get_source_segment(src, st.value) != "self.Get_dofs(problemType)":
-                    raise TranslateError("line %d: ownedDofs is not self.Get_dofs(problemType)" % st.lineno)
+            if isinstance(tgt, ast.Name) and (tgt.id == owned or tgt.id in alias):
                 continue
-            if seg is not None and seg.startswith("reaction"):
-                if seg != "reaction[dofs]":
+            if seg is not None and (seg == rv or seg.startswith(rv + "[")):
+                if seg != rv + "[dofs]":
                     raise TranslateError("line %d: write into %s (only reaction[dofs] is accepted)" % (st.lineno, seg))
                 if isinstance(st, ast.AugAssign) and not isinstance(st.op, ast.Add):
                     raise TranslateError("line %d: unsupported augmented assignment" % st.lineno)
@@ -127,8 +151,10 @@ def read_calc_reaction(repo):
                 mats = [n.id for n in ast.walk(v.left) if isinstance(n, ast.Name) and n.id in pairs]
                 if len(mats) != 1:
                     raise TranslateError("line %d: cannot identify the matrix of the term" % st.lineno)
-                env = {"x": None}
                 env = {mats[0]: ("mat", "MA"), pairs[mats[0]]: ("vec", "VX")}
+                for nm, call in alias.items():
+                    if call == pairs[mats[0]]:
+                        env[nm] = ("vec", "VX")
                 t, e = _expr(v, env, src)
                 if t != "vec":
                     raise TranslateError("line %d: term is not a vector" % st.lineno)
@@ -137,7 +163,7 @@ def read_calc_reaction(repo):
             returns.append(ast.get_source_segment(src, st.value))
     if not terms or terms[0][0] != "K" or terms[0][2]:
         raise TranslateError("the first write into reaction[dofs] is not the K term")
-    if sorted(returns) != sorted(["Reduce_sum(reaction)", "reaction[dofs]"]):
+    if sorted(returns) != sorted(["Reduce_sum(%s)" % rv, "%s[dofs]" % rv]):
         raise TranslateError("Calc_Reaction returns %s (expected Reduce_sum(reaction) under MPI, reaction[dofs] in serial)" % returns)
     return {"terms": terms, "line": f.lineno}
 
@@ -206,24 +232,70 @@ def emit_coq(r):
 # ----------------------------------------------------------------------------------------------
 # Mesh.Merge: the point relabelling step (EasyFEA/FEM/_mesh.py), structural, fail closed
 # ----------------------------------------------------------------------------------------------
-MERGE_EXPECTED = {
-    "pairs": ['cKDTree(all_coords).query_pairs(mergePointsTol,output_type="ndarray")'],
-    "rows": ["np.concatenate([pairs[:,0],pairs[:,1]])"],
-    "cols": ["np.concatenate([pairs[:,1],pairs[:,0]])"],
-    "graph": ["sp.csr_matrix((np.ones(len(rows),dtype=bool),(rows,cols)),shape=(N,N))"],
-    "_,labels": ["connected_components(graph,directed=False)"],
-    "labels": ["np.arange(N)"],
-    "_,first_in_component": ["np.unique(labels,return_index=True)"],
-    "new_coords": ["all_coords[first_in_component]", "all_coords"],
-    "old_to_new": ["labels", "np.arange(N)"],
-    "offsets": ["np.concatenate(([0],np.cumsum(sizes[:-1])))"],
-    "all_coords": ["np.vstack(coords)"],
-    "N": ["all_coords.shape[0]"],
-    "mapping": ["[old_to_new[off:off+s]foroff,sinzip(offsets,sizes)]"],
-}
+class _Canon(ast.NodeTransformer):
+    def __init__(self, defs):
+        self.defs = defs
+
+    def _comp(self, node):
+        bound = {n.id for g in node.generators for n in ast.walk(g.target) if isinstance(n, ast.Name)}
+        saved = self.defs
+        self.defs = {k: v for k, v in saved.items() if k not in bound}
+        try:
+            return self.generic_visit(node)
+        finally:
+            self.defs = saved
+
+    visit_ListComp = visit_GeneratorExp = visit_SetComp = visit_DictComp = _comp
+
+    def visit_Name(self, node):
+        d = self.defs.get(node.id)
+        if d:
+            return ast.Name(id="{" + "|".join(sorted(set(d))) + "}", ctx=ast.Load())
+        return node
+
+
+def _canon_locals(f):
+    """canonical (fully inlined, whitespace-free) defining expressions of the locals of a function: independent of
+    the NAMES of the locals and of the order of independent statements; several definitions (branches) are kept as a
+    sorted set {a|b}; tuple targets become item<k>(expr); loop variables iter<k>(iterable)."""
+    defs = {}
+
+    def canon(e):
+        import copy
+        t = _Canon(defs).visit(copy.deepcopy(e))
+        return "".join(ast.unparse(t).split())
+
+    def bind(target, text):
+        if isinstance(target, ast.Name):
+            defs.setdefault(target.id, []).append(text)
+        elif isinstance(target, (ast.Tuple, ast.List)):
+            for k, el in enumerate(target.elts):
+                bind(el, "item%d(%s)" % (k, text))
+
+    def walk(stmts):
+        for st in stmts:
+            if isinstance(st, ast.Assign):
+                c = canon(st.value)
+                for tg in st.targets:
+                    bind(tg, c)
+            elif isinstance(st, ast.AnnAssign) and st.value is not None:
+                bind(st.target, canon(st.value))
+            elif isinstance(st, ast.For):
+                bind(st.target, "iter(%s)" % canon(st.iter))
+                walk(st.body)
+                walk(st.orelse)
+            elif isinstance(st, ast.If):
+                walk(st.body)
+                walk(st.orelse)
+            elif isinstance(st, (ast.With, ast.Try)):
+                walk(st.body)
+    walk(f.body)
+    return defs, canon
 
 
 def read_merge_relabel(repo):
+    """structural check of the relabelling step of Mesh.Merge, independent of the names of the locals and of the order
+    of independent statements (helper extraction is NOT supported: the step must stay inside Mesh.Merge)."""
     path = os.path.join(repo, "EasyFEA", "FEM", "_mesh.py")
     src = open(path).read()
     f = None
@@ -234,25 +306,46 @@ def read_merge_relabel(repo):
                     f = g
     if f is None:
         raise TranslateError("Mesh.Merge not found")
-    got = {}
-    for st in ast.walk(f):
-        if isinstance(st, (ast.Assign, ast.AnnAssign)):
-            tgt = st.targets[0] if isinstance(st, ast.Assign) else st.target
-            if st.value is None:
-                continue
-            name = "".join(ast.get_source_segment(src, tgt).split())
-            if name in MERGE_EXPECTED:
-                got.setdefault(name, []).append("".join(ast.get_source_segment(src, st.value).split()))
-    for name, exp in MERGE_EXPECTED.items():
-        if got.get(name) != exp:
-            raise TranslateError("Mesh.Merge: `%s` is assigned %s, expected %s (connected components of the symmetric coincidence graph, "
-                                 "labels by first occurrence)" % (name, got.get(name), exp))
-    text = "".join(ast.get_source_segment(src, f).split())
-    if "old_to_new[groupElem.connect+off]" not in text:
+    defs, canon = _canon_locals(f)
+    flat = {k: sorted(set(v)) for k, v in defs.items()}
+
+    def find(pred, what):
+        hits = [k for k, v in flat.items() if pred(v)]
+        if not hits:
+            raise TranslateError("Mesh.Merge: no local variable is %s" % what)
+        return hits[0]
+
+    # all points / their number
+    allc = find(lambda v: len(v) == 1 and v[0].startswith("np.vstack("), "the stacked coordinates np.vstack(coords)")
+    A = "{" + "|".join(flat[allc]) + "}"
+    # pairs within the ABSOLUTE tolerance mergePointsTol
+    pairs = find(lambda v: len(v) == 1 and v[0].startswith("cKDTree(" + A + ").query_pairs(mergePointsTol,"), "cKDTree(all_coords).query_pairs(mergePointsTol, ...)")
+    P = "{" + "|".join(flat[pairs]) + "}"
+    r1 = "np.concatenate([%s[:,0],%s[:,1]])" % (P, P)
+    r2 = "np.concatenate([%s[:,1],%s[:,0]])" % (P, P)
+    # labels: connected components of the SYMMETRIC graph, or arange(N) when there is no pair
+    def is_labels(v):
+        cc = [x for x in v if x.startswith("item1(connected_components(") and x.endswith(",directed=False))")]
+        ar = [x for x in v if x.startswith("np.arange(")]
+        return len(v) == 2 and len(cc) == 1 and len(ar) == 1 and "csr_matrix" in cc[0] and r1 in cc[0] and r2 in cc[0] \
+            and ("(%s,%s)" % ("{" + r1 + "}", "{" + r2 + "}") in cc[0] or "(%s,%s)" % ("{" + r2 + "}", "{" + r1 + "}") in cc[0])
+    labels = find(is_labels, "`_, labels = connected_components(symmetric csr graph of the pairs, directed=False)` / `np.arange(N)`")
+    Lc = "{" + "|".join(flat[labels]) + "}"
+    # old_to_new = labels (mergePoints) | arange(N)
+    o2n = find(lambda v: len(v) == 2 and Lc in v and any(x.startswith("np.arange(") for x in v), "old_to_new = labels / np.arange(N)")
+    # new_coords = all_coords[first index of every label] | all_coords
+    first = "item1(np.unique(%s,return_index=True))" % Lc
+    find(lambda v: len(v) == 2 and ("%s[{%s}]" % (A, first)) in v and A in v, "new_coords = all_coords[first_in_component] / all_coords")
+    O = "{" + "|".join(flat[o2n]) + "}"
+    text = canon(ast.Module(body=f.body, type_ignores=[]))
+    uses = [text[i + len(O):] for i in range(len(text)) if text.startswith(O + "[", i)]
+    # old_to_new[<group>.connect + <offset>] with both operands loop variables
+    if not any(u.startswith("[{item1(iter(") and ".connect+{item" in u[:u.find(".connect+") + 20] for u in uses if ".connect+" in u):
         raise TranslateError("Mesh.Merge: connectivity is not remapped by old_to_new[groupElem.connect + off]")
-    # the connected-components branch must be the `if len(pairs):` branch of `if mergePoints:`
-    if "ifmergePoints:" not in text or "iflen(pairs):" not in text:
-        raise TranslateError("Mesh.Merge: the mergePoints / len(pairs) branches were not found")
+    # mapping = [old_to_new[off : off + s] for off, s in zip(offsets, sizes)]
+    import re
+    if not any(re.match(r"^\[(\w+):\1\+(\w+)\]for\1,\2inzip\(", u) for u in uses):
+        raise TranslateError("Mesh.Merge: mapping is not [old_to_new[off : off + s] for off, s in zip(offsets, sizes)]")
     return {"line": f.lineno}
 
 
